@@ -180,6 +180,10 @@ func judge(c maskCase) outcome {
 		return harness("%v", err)
 	}
 	v = canon(top, v).(*ref.StructV)
+	if !writable(top, v, true) {
+		// a set with equal elements or a union without exactly one member: not a value the generated writer accepts
+		return outcome{status: "unusable_value"}
+	}
 	zeroReq := c.Option == "field_mask_zero_required"
 
 	call := func(req map[string]interface{}) (map[string]interface{}, error) {
@@ -483,6 +487,7 @@ func modelCfg() idl.Cfg {
 var (
 	weights3of4 = []bool{true, true, true, false}
 	oneInFive   = []bool{false, false, true, false, false}
+	oneInThree  = []bool{false, true, false}
 	shapes      = []string{"paths", "paths", "paths", "paths", "paths", "paths", "paths", "paths", "paths", "paths", "paths", "paths", "nomask", "paths", "paths", "paths", "paths", "paths", "paths", "paths", "paths", "paths", "paths", "nopaths"}
 )
 
@@ -868,6 +873,7 @@ func newPathGen(rt *rapid.T, black, zeroReq bool) *pathGen {
 
 // history mode ---------------------------------------------------------------
 
+var histFirst = []string{"narrow", "white", "narrow", "black", "narrow", "parent", "nil"}
 var histKinds = []string{"narrow", "nil", "parent", "white", "black", "narrow", "empty", "nil", "parent", "black"}
 
 // histMask draws the mask of one history step over the object's current value:
@@ -925,7 +931,11 @@ func genHistory(rt *rapid.T, st *ref.StructT, v *ref.StructV, zeroReq bool, fres
 	n := rapid.SampledFrom([]int{2, 3, 3, 2}).Draw(rt, "nsteps")
 	narrowSeen := false
 	for k := 0; k < n; k++ {
-		kind := rapid.SampledFrom(histKinds).Draw(rt, "stepkind")
+		kinds0 := histKinds
+		if k == 0 {
+			kinds0 = histFirst // start narrow more often: later steps then have something to clear
+		}
+		kind := rapid.SampledFrom(kinds0).Draw(rt, "stepkind")
 		step, root, w, sk := histMask(rt, kind, st, cur, zeroReq)
 		if sk != "" {
 			return nil, nil, false, sk
@@ -1145,12 +1155,16 @@ func TestMask(t *testing.T) {
 				vt.Class("value_with_nil_struct")
 				continue
 			}
-			v := canon(top, v1).(*ref.StructV)
+			v := dedupSets(top, canon(top, v1)).(*ref.StructV)
 			c.Value = ref.StructToJSON(st, v)
-			if option != "field_mask_halfway" && rapid.SampledFrom(oneInFive).Draw(rt, "history") {
+			histShare := oneInFive
+			if len(nested) > 0 {
+				histShare = oneInThree
+			}
+			if option != "field_mask_halfway" && rapid.SampledFrom(histShare).Draw(rt, "history") {
 				// several operations on ONE object (not under field_mask_halfway, where a child keeps the first mask by design)
 				hst, hv := st, v
-				if len(nested) > 0 && rapid.SampledFrom(weights3of4).Draw(rt, "nestedroot") {
+				if len(nested) > 0 && rapid.IntRange(0, 7).Draw(rt, "nestedroot") > 0 {
 					hst = rapid.SampledFrom(nested).Draw(rt, "struct")
 					hv0 := ref.GenStruct(rt, hst, ref.GenOpts{MaxLen: 4, AllFields: true})
 					if hv0 == nil {
@@ -1162,7 +1176,7 @@ func TestMask(t *testing.T) {
 						vt.Class("value_with_nil_struct")
 						continue
 					}
-					hv = canon(&ref.Type{Kind: ref.Struct, Struct: hst}, hv1).(*ref.StructV)
+					hv = dedupSets(&ref.Type{Kind: ref.Struct, Struct: hst}, canon(&ref.Type{Kind: ref.Struct, Struct: hst}, hv1)).(*ref.StructV)
 				}
 				steps, kinds, narrowWider, skip := genHistory(rt, hst, hv, zeroReq, fresh)
 				if skip != "" {
